@@ -80,7 +80,7 @@ func NewLoaders(file Resource) ([]*Loader, error) {
 	}
 
 	var bytes [4]byte
-	_, err = file.Read(bytes[:])
+	_, err = io.ReadFull(file, bytes[:])
 	if err != nil {
 		return nil, err
 	}
@@ -213,7 +213,7 @@ func parseOneFont(file Resource, offset uint32, relativeOffset bool) (parser *Lo
 	}
 
 	var bytes [4]byte
-	_, err = file.Read(bytes[:])
+	_, err = io.ReadFull(file, bytes[:])
 	if err != nil {
 		return nil, err
 	}
@@ -246,7 +246,7 @@ func parseTTCHeader(r io.Reader) ([]uint32, error) {
 	// The https://www.microsoft.com/typography/otspec/otff.htm "Font
 	// Collections" section describes the TTC header.
 	var buf [12]byte
-	if _, err := r.Read(buf[:]); err != nil {
+	if _, err := io.ReadFull(r, buf[:]); err != nil {
 		return nil, err
 	}
 	// skip versions
@@ -277,7 +277,7 @@ func parseTTCHeader(r io.Reader) ([]uint32, error) {
 // negative values as invalid.
 func parseDfont(r Resource) ([]uint32, error) {
 	var buf [16]byte
-	if _, err := r.Read(buf[:]); err != nil {
+	if _, err := io.ReadFull(r, buf[:]); err != nil {
 		return nil, err
 	}
 	resourceMapOffset := binary.BigEndian.Uint32(buf[4:])
